@@ -14,6 +14,7 @@ import prudp_session as ps
 import c07_multiport as mpo
 import c07_writefail as wf
 import l1_trace
+import l1_stream
 from sim import ticks, quant
 
 LEVEL = "proof"
@@ -508,7 +509,18 @@ def run(ctx):
             for key, what in bad:
                 ctx.violation("c07:%s:%s" % (key, specd.get("transport", "udp") + (":" + atk[1] if atk[0] == "stream" else "") + (":flood" if atk[0] == "flood" else "") + (":probe" if atk[0] == "probe" else "") + (":reconnect" if atk[0] == "reconnect" else "") + (":" + atk[0] if atk[0] in ("multiport", "writefail-dg", "writefail-st") else "")), what,
                               {"spec": specd, "attack": atk, "seed": seed, "how": "harness/corr_C07.py work((0, spec, seed, attack))"})
-            r = l1_server_compare(drv, att, atk[0] == "multiport") if att is not None else {"ok": True, "diffs": [], "skipped": True}
+            if att is not None and specd.get("transport") == "lite":
+                # stream transports: the server transport replayed through L1 from the stream reads / writes (harness/l1_stream.py)
+                r = l1_stream.compare_server(drv, att)
+                if r.get("tie_race"):
+                    ctx.tag("l1-stream-replay:set-aside-tie-race")
+                elif not r.get("skipped"):
+                    ctx.tag("l1-stream-replay")
+                    ctx.tag("l1-stream-replay:chunks-read", r.get("reads", 0))
+                    if r.get("prefix"):
+                        ctx.tag("l1-stream-replay:prefix-only")
+            else:
+                r = l1_server_compare(drv, att, atk[0] == "multiport") if att is not None else {"ok": True, "diffs": [], "skipped": True}
             if not r["ok"]:
                 ndiff += 1
                 if first is None:
